@@ -77,7 +77,8 @@ theorem lengths_honest (w : World) (H : List Nat) (ar : Arch) :
 /-! ### 4. round trips
 
 Hypotheses: `Bounded w` — every live handle has a 32-bit id and a non-zero 32-bit generation;
-`ZstNormal w` — components of the zero-sized types 7, 8, 9 carry serial 0; `SizesFit w H` — `H` and
+`ZstNormal w` — stored values are ones their types can hold (`normVal t v = v`: zero-sized types 7, 8, 9
+carry serial 0, the 4-byte types 1, 2 a 32-bit value); `SizesFit w H` — `H` and
 every archetype have fewer than 2³² elements (the announced lengths fit their fields). -/
 
 theorem row_roundtrip (w : World) (H : List Nat) (hw : w.Inv) (hH : H.Nodup) (hb : Bounded w)
